@@ -30,9 +30,22 @@ impl RequestHandler<GotoDefinition> for GoToDefinitionHandler {
         let codegen = codegen.lock().unwrap();
         let analysis = codegen.analysis();
         let defs = ctx.find_definitions(analysis, &params.text_document_position_params);
-        if let Some((_, def)) = defs.first() {
+        // The position may be inside a usage of one symbol and, at the same time, inside the location where another symbol
+        // is defined (e.g. the 'index' of a loop is defined at the loop's expression). What's being used is what we want.
+        let tree = ctx.tree.as_ref().unwrap();
+        let path = params
+            .text_document_position_params
+            .text_document
+            .uri
+            .to_file_path()
+            .unwrap();
+        let pos = to_line_col(&params.text_document_position_params.position);
+        let def = defs
+            .iter()
+            .find(|(_, def)| def.try_get_usage_containing(tree, &path, pos).is_some())
+            .or_else(|| defs.first());
+        if let Some((_, def)) = def {
             if let Some(location) = &def.location {
-                let tree = ctx.tree.as_ref().unwrap();
                 let origin = def.try_get_usage_containing(
                     tree,
                     &params
